@@ -96,6 +96,7 @@ class Endpoint:
         self.fsize = {}              # send id -> bytes of its frame (known once it has been handed to the connection)
         self.psize = {}              # payload id of a delivered response -> its content length
         self.psize_bad = set()       # payload ids seen with two different lengths (no size assertion then)
+        self.next_pid = 0
         self.items = ["notifier 1"]
         self.next_send = 0
         self.next_handler = 0
@@ -132,7 +133,7 @@ def nonce_nat(s):
 
 
 class Translator:
-    sizes = False   # set once Model/Replay understands the `sizes` item and `?rec`
+    sizes = True    # was gated until Model/Replay understands the `sizes` item and `?rec`
 
     def __init__(self, lines):
         self.lines = lines
@@ -150,7 +151,7 @@ class Translator:
             if t[0] == "E" and len(t) > 6 and t[3] == "wr":
                 fi = frame_info(t[5])
                 if fi and fi[2] == 1 and fi[3] is not None:
-                    self.resp_len[int(t[4])].setdefault((fi[3], nonce_nat(t[6]) if t[6] != "-" else None), set()).add(fi[1])
+                    self.resp_len[int(t[4])].setdefault(fi[3], set()).add(fi[1])
 
     # -- helpers
     def lookahead(self, i, pred):
@@ -391,8 +392,13 @@ class Translator:
                 if f[3] != "resp":
                     raise Unmapped("look-up not followed by a response frame")
                 r.resp = f
-                pid = nonce_nat(f[6])
-                lens = self.resp_len[1 - E.ep].get((int(f[4]), pid if f[6] != "-" else None), set())
+                if f[6] == "-":
+                    # no nonce in the payload (error replies): a payload id of its own, so that its length is its own
+                    E.next_pid += 1
+                    pid = 1000000000 + E.next_pid
+                else:
+                    pid = nonce_nat(f[6])
+                lens = self.resp_len[1 - E.ep].get(int(f[4]), set())
                 if len(lens) == 1 and E.psize.get(pid, next(iter(lens))) == next(iter(lens)):
                     E.psize[pid] = next(iter(lens))
                 else:
